@@ -19,7 +19,7 @@ CHECKS = {
          "Every multiplication path (mul_assign, CurveAffine::mul, precomp_3/256 tables, Wnaf in both staging orders and shared variants, hook path with explicit windows 2..=22) is compared with the model's [k]P on structured scalars and all point classes; wNAF context reuse is explored as generated histories compared with a fresh context; the finite sub-domains (256 single-bit scalars x paths, every recommended window, recommendation range) are enumerated.",
          "5/C02", "Hook: verif_wnaf wrappers (windows not reachable through Wnaf)."),
  "C03": ("property-based testing against a textbook ate pairing over a flat Fq12 model and the published e(g1,g2)",
-         "Pairs with known discrete logs incl. identities and scalars >= r: exact agreement with an independent textbook pairing on a subset, bilinearity against the published e(g1,g2) raised to ab in the model, non-degeneracy, order, call direction.",
+         "Pairs with known discrete logs incl. identities and scalars >= r: exact agreement with an independent textbook pairing on a subset, bilinearity against the published e(g1,g2) raised to ab in the model, non-degeneracy, order, call direction; operands computed by the crate's own arithmetic (identities reached by P + (-P), [r]P); call histories on related points (negations, beta-twists) compared with the textbook value.",
          "5/C03", ""),
  "C04": ("property-based differential testing of the four decoders against a model decoder (accepted point or first failing stage)",
          "Structured byte strings (valid encodings of every point class incl. each small prime order, all 8 flag combinations, out-of-range components, x without root, uniform bytes) are decoded by the crate (checked and unchecked) and by a model decoder that returns the point or the first failing validation stage; every outcome cell per format is populated and counted.",
@@ -31,16 +31,16 @@ CHECKS = {
          "hash_to_curve / encode_to_curve for both groups and four expanders on generated (msg, dst) are compared with a from-the-RFC pipeline (exact point equality, model subgroup test, determinism); four RFC 9380 appendix-J vectors are checked directly.",
          "5/C06", "Isogeny coefficient tables of the model are a frozen copy of the pinned tree (DESIGN.md 2.2)."),
  "C07": ("property-based testing: model predicate on generated coordinate pairs + stateful safe-API programs with an invariant after every step",
-         "The membership predicate is compared with (identity or on-curve and [r]P = O) on arbitrary pairs, every small-order class, twists and off-curve pairs; programs built only from safe sources and safe operations are executed and after every step the value must be a member (sources tested by the model, derived values equal to the model's group-law value).",
+         "The membership predicate is compared with (identity or on-curve and [r]P = O) on arbitrary pairs, every small-order class, twists and off-curve pairs; programs built only from safe sources and safe operations are executed and after every step the value must be a member (sources tested by the model, derived values equal to the model's group-law value); sources include arbitrary byte strings fed to the checked decoders / deserializers (whatever is accepted must be a member) and order-r points of isomorphic curves for the predicate.",
          "5/C07", ""),
  "C08": ("property-based differential testing against BigUint arithmetic",
-         "Every Fq / Fr operation and every FqRepr / FrRepr operation named by the property is compared with integer arithmetic on boundary-heavy generated operands; hard-coded constants are observed through behaviour.",
+         "Every Fq / Fr operation and every FqRepr / FrRepr operation named by the property is compared with integer arithmetic on boundary-heavy generated operands; hard-coded constants are observed through behaviour. The checks are written against the concrete types with method-call syntax (inherent methods would shadow the derived trait methods), operands include Montgomery-limb patterns and limb-spanning offsets from the modulus, and every result must also be the canonical element for the crate's own == / is_zero.",
          "5/C08", ""),
  "C09": ("property-based differential testing against a flat quotient-ring model of Fq12",
          "Fq2 / Fq6 / Fq12 ring operations, inverses, non-residue multiplications, norm, conjugation, Frobenius with arbitrary powers and the sparse products are compared with arithmetic in Fq[w]/(w^12-2w^6+2) (Frobenius by generic powering) on structurally diverse elements.",
          "5/C09", ""),
  "C10": ("property-based testing with exponent bookkeeping against one model multiplication + exhaustive enumeration of the window heuristic",
-         "Lists of points with known discrete logs (duplicates, inverse pairs, identities, zero and word-straddling scalars, mismatched lengths, lengths at every window-selection boundary) go through the default, explicit-window (1..=20) and table-driven entry points and are compared with [sum k_i a_i]G; find_pippinger_window is enumerated.",
+         "Lists of points with known discrete logs (duplicates, inverse pairs, identities, zero and word-straddling scalars, mismatched lengths, lengths at every window-selection boundary) go through the default, explicit-window (1..=20) and table-driven entry points and are compared with [sum k_i a_i]G; find_pippinger_window is enumerated; tables are used buffers with stale content; valid calls after a rejected out-of-domain call on the same thread.",
          "5/C10", ""),
  "C11": ("property-based testing of pairing products against the published e(g1,g2) raised to the exponent sum in the model",
          "Generated lists of pairs with identities, repetitions and two-/three-term cancellations: joint Miller loop = product of singles = published^(sum a_i b_i), exactly 1 on cancellation, helper functions agree, prepared elements re-used in other orders and sub-lists.",
@@ -70,7 +70,7 @@ CHECKS = {
          "Six types x both flags: written bytes equal the model image; valid, truncated, trailing, wrong-flag, non-reduced, rejected-point and random streams are read through a chunking, counting reader and the outcome is compared with the model's decision.",
          "5/C19", ""),
  "C20": ("property-based concurrency testing: generated workloads x thread assignments x prefix histories, bit-identical to a sequential run (TSan pass in the thorough tier)",
-         "Generated workloads run sequentially twice (different order / prefixes) and concurrently on 2..16 barrier-released threads sharing a wNAF table and prepared pairing elements; all results must be bit-identical; thorough adds a ThreadSanitizer pass. Interleavings are sampled, not enumerated.",
+         "Generated workloads run sequentially twice (different order / prefixes) and concurrently on 2..16 barrier-released threads sharing a wNAF table and prepared pairing elements; all results must be bit-identical; bursts of 4..16 threads repeating a few operations densely (check-then-use races on process-wide state); the same operations in fresh child processes in different orders (state captured from the first caller); thorough adds a ThreadSanitizer pass. Interleavings are sampled, not enumerated.",
          "5/C20", "The OS owns the schedule; see DESIGN.md section 8."),
 }
 
